@@ -869,7 +869,7 @@ fn exclusion_case_with(ctx: &mut Ctx, r: &mut Rng, root: PathBuf, threads: Vec<u
     }
     let dur_ms = if quick { 350 } else { 500 } + r.below(150);
     let t0 = now_ns() + 120_000_000; // start barrier: all processes begin together
-    let exe = match std::env::current_exe() {
+    let exe = match crate::fw::self_exe() {
         Ok(e) => e,
         Err(_) => {
             ctx.inconclusive("current_exe unavailable");
